@@ -64,7 +64,7 @@ def WFO(node, parent, ref, seg, i=0):
 ATTR = "yaml_path._escaped[segment_index][1]"
 REQ = "call_event('required')"
 SEGC = "call_event('segment')"
-TRV = "call_event('traverse')"
+TRV = "call_event('handler')"
 OPTC = "call_event('optional')"
 KW = {"kw_translated_path": "YAMLPath", "kw_ancestry": "List[Tuple[Any, Any]]"}
 KWP = dict(KW, kw_parent="Any", kw_parentref="Any")
@@ -140,7 +140,7 @@ class ByIndex:
         "for slice_index in range(max(minidx, 0), min(maxidx, datalen))": {
             "invariant": ["len(sliced_elements) == iters"], "body_ensures": ["slice_index == max(minidx, 0) + iters"]},
     }
-    opts = dict(SEG_INV, yields="Union[NodeCoords, list]",
+    opts = dict(SEG_INV, event="('handler', 'index', data, yaml_path, segment_index, kw_translated_path, kw_ancestry)", yields="Union[NodeCoords, list]",
                 append_inv={"sliced_elements": [
                     "same(elem.node, data[slice_index]) and elem.parent is data and same(elem.parentref, slice_index)",
                     "extended_by(elem.ancestry, ancestry, (data, slice_index))",
@@ -181,7 +181,7 @@ class ByKey:
             "extended_by(call_event('segment')[5], ancestry, (data, eleidx))",
         ]},
     }
-    opts = dict(SEG_INV, yields=NC)
+    opts = dict(SEG_INV, event="('handler', 'key', data, yaml_path, segment_index, kw_translated_path, kw_ancestry)", yields=NC)
 
 
 
@@ -223,7 +223,7 @@ class ByAnchor:
         "for ele in list(data)": {"sole_yielder": True, "body_ensures": WFA("ele", "data", "ele") + [
             "(len(yielded) == 1) == %s" % (ANCH % ("ele", "ele"))]},
     }
-    opts = dict(SEG_INV, yields=NC)
+    opts = dict(SEG_INV, event="('handler', 'anchor', data, yaml_path, segment_index, kw_translated_path, kw_ancestry)", yields=NC)
 
 
 SM = "Searches.search_matches(method, term, %s)"
@@ -270,7 +270,7 @@ class BySearch:
             "implies(attr == '.' and is_aoh and isinstance(ele, dict) and term in ele, matches is True)",
             "implies(attr != '.' and isinstance(ele, dict) and attr in ele, same(matches, %s))" % (SM % "ele[attr]")]},
     }
-    opts = dict(SEG_INV, yields=NC)
+    opts = dict(SEG_INV, event="('handler', 'search', data, None, terms, kw_translated_path, kw_ancestry, kw_parent, kw_parentref)", yields=NC)
 
 
 @contract(PR + "_get_nodes_by_match_all_unfiltered", props=["C15", "C01", "C02"])
@@ -334,7 +334,7 @@ class MatchAll:
     requires = PARSED
     inline = [YP + "escaped", YP + "unescaped"]
     raises = ["YAMLPathException"]
-    opts = dict(SEG_INV, yields=NC)
+    opts = dict(SEG_INV, event="('handler', 'match_all', data, yaml_path, segment_index, kw_translated_path, kw_ancestry, kw_parent, kw_parentref)", yields=NC)
 
 
 @contract(PR + "_get_nodes_by_traversal", props=["C15"])
@@ -360,12 +360,12 @@ class ByTraversal:
     ]
     loops = {
         "for key, val in list(data.items())": {"body_ensures": [
-            "called('traverse') == 1 and %s[1] is val and %s[2] is data and same(%s[3], key)" % (TRV, TRV, TRV),
-            "path_is(%s[4], translated_path, %s) and extended_by(%s[5], ancestry, (data, key))" % (TRV, ESC % "key", TRV),
+            "called('handler') == 1 and %s[1] == 'traverse' and %s[2] is val and %s[7] is data and same(%s[8], key)" % (TRV, TRV, TRV, TRV),
+            "path_is(%s[5], translated_path, %s) and extended_by(%s[6], ancestry, (data, key))" % (TRV, ESC % "key", TRV),
             "len(yielded) == 0"]},
         "for idx, ele in enumerate(data)": {"body_ensures": [
-            "called('traverse') == 1 and %s[1] is ele and %s[2] is data and same(%s[3], idx)" % (TRV, TRV, TRV),
-            "path_is(%s[4], translated_path, '[{}]'.format(idx)) and extended_by(%s[5], ancestry, (data, idx))" % (TRV, TRV),
+            "called('handler') == 1 and %s[1] == 'traverse' and %s[2] is ele and %s[7] is data and same(%s[8], idx)" % (TRV, TRV, TRV, TRV),
+            "path_is(%s[5], translated_path, '[{}]'.format(idx)) and extended_by(%s[6], ancestry, (data, idx))" % (TRV, TRV),
             "len(yielded) == 0"]},
         "for node_coord in self._get_nodes_by_traversal(val, yaml_path, segment_index, parent=data, parentref=key, "
         "translated_path=next_translated_path, ancestry=next_ancestry)": {
@@ -376,18 +376,47 @@ class ByTraversal:
         "for ele in data": {"body_ensures": WF("ele", "data", "ele", ESC % "ele")},
     }
     opts = dict(SEG_INV, yields="NodeCoords", decreases="size of the (finite, acyclic) subtree under `data`",
-                event="('traverse', data, kw_parent, kw_parentref, kw_translated_path, kw_ancestry)")
+                event="('handler', 'traverse', data, yaml_path, segment_index, kw_translated_path, kw_ancestry, kw_parent, kw_parentref)")
 
 
-@contract(PR + "_get_nodes_by_path_segment", props=["C15"])
+HND = "call_event('handler')"
+SEGT = "yaml_path._escaped[segment_index][0]"
+
+
+@contract(PR + "_get_nodes_by_path_segment", props=["C15", "C01", "C02", "C12"])
 class ByPathSegment:
-    """Dispatcher: any segment index (out-of-range indexes yield nothing)."""
+    """Dispatcher: an out-of-range segment index yields nothing; otherwise exactly ONE handler runs -- the one for the
+    segment's type -- on the node the dispatcher was given (a NodeCoords input is unwrapped to its node and its own
+    coordinates first), with the path, the segment index and the incoming path / ancestry (and parent / reference where
+    the handler takes them) handed on unchanged; a SEARCH / KEYWORD_SEARCH handler receives the segment's attributes from
+    the ESCAPED parse (`stripped_attrs`: the term as the user meant it), a COLLECTOR those of the unescaped parse (from-code); what the
+    handler yields is relayed unchanged, in order, and nothing else is yielded."""
     params = dict(KWP, yaml_path="YAMLPath", segment_index="int", kw_traverse_lists="bool")
     assume_fields = PATH_FIELDS
     # parser-established: the attribute of an ANCHOR segment is the anchor's name, a str
     requires = INV + ["0 <= segment_index"]
     inline = [YP + "escaped", YP + "unescaped"]
     raises = ["YAMLPathException"]
+    ensures = [
+        "implies(segment_index >= seg_count(yaml_path), called('handler') == 0)",
+        "implies(segment_index < seg_count(yaml_path), called('handler') == 1 and looped('for node_coord in node_coords'))",
+        "implies(segment_index < seg_count(yaml_path) and not isinstance(data, NodeCoords), %s[2] is data and %s[5] is translated_path and %s[6] is ancestry)" % (HND, HND, HND),
+        "implies(segment_index < seg_count(yaml_path) and isinstance(data, NodeCoords), %s[2] is data.node and %s[6] is data.ancestry)" % (HND, HND),
+        "implies(segment_index < seg_count(yaml_path) and %s is PathSegmentTypes.KEY, %s[1] == 'key' and %s[3] is yaml_path and %s[4] == segment_index)" % (SEGT, HND, HND, HND),
+        "implies(segment_index < seg_count(yaml_path) and %s is PathSegmentTypes.INDEX, %s[1] == 'index' and %s[3] is yaml_path and %s[4] == segment_index)" % (SEGT, HND, HND, HND),
+        "implies(segment_index < seg_count(yaml_path) and %s is PathSegmentTypes.ANCHOR, %s[1] == 'anchor' and %s[3] is yaml_path and %s[4] == segment_index)" % (SEGT, HND, HND, HND),
+        "implies(segment_index < seg_count(yaml_path) and %s is PathSegmentTypes.MATCH_ALL, %s[1] == 'match_all' and %s[3] is yaml_path and %s[4] == segment_index "
+        "and same(%s[7], parent) and same(%s[8], parentref))" % (SEGT, HND, HND, HND, HND, HND),
+        "implies(segment_index < seg_count(yaml_path) and %s is PathSegmentTypes.TRAVERSE, %s[1] == 'traverse' and %s[3] is yaml_path and %s[4] == segment_index "
+        "and same(%s[7], parent) and same(%s[8], parentref))" % (SEGT, HND, HND, HND, HND, HND),
+        "implies(segment_index < seg_count(yaml_path) and %s is PathSegmentTypes.SEARCH, %s[1] == 'search' and %s[4] is stripped_attrs "
+        "and same(%s[7], parent) and same(%s[8], parentref))" % (SEGT, HND, HND, HND, HND),
+        "implies(segment_index < seg_count(yaml_path) and %s is PathSegmentTypes.KEYWORD_SEARCH, %s[1] == 'keyword' and %s[3] is yaml_path "
+        "and %s[4] is stripped_attrs and same(%s[7], parent) and same(%s[8], parentref))" % (SEGT, HND, HND, HND, HND, HND),
+        "implies(segment_index < seg_count(yaml_path) and %s is PathSegmentTypes.COLLECTOR, %s[1] == 'collector' and %s[3] is yaml_path "
+        "and %s[4] is unesc_attrs and same(%s[7], parent) and same(%s[8], parentref))" % (SEGT, HND, HND, HND, HND, HND),
+    ]
+    loops = {"for node_coord in node_coords": {"sole_yielder": True, "body_ensures": ["len(yielded) == 1 and yielded[0] is node_coord"]}}
     opts = dict(SEG_INV, yields=NC, event="('segment', data, kw_parent, kw_parentref, kw_translated_path, kw_ancestry)")
 
 
@@ -396,7 +425,7 @@ class ByKeywordSearch:
     params = dict(KWP, yaml_path="YAMLPath", terms="SearchKeywordTerms", kw_traverse_lists="bool", kw_relay_segment="Any")
     assume_fields = PATH_FIELDS
     raises = ["YAMLPathException"]
-    opts = dict(SEG_INV, yields=NC)
+    opts = dict(SEG_INV, event="('handler', 'keyword', data, yaml_path, terms, kw_translated_path, kw_ancestry, kw_parent, kw_parentref)", yields=NC)
 
 
 @contract("yamlpath.common.keywordsearches.KeywordSearches.search_matches", props=["C15", "C13"])
@@ -514,7 +543,7 @@ class ByCollector:
             "decreases": "len(segments) - next_segment_idx"},
     }
     ensures = ["len(out) <= 1"]
-    opts = dict(SEG_INV, yields=NC,
+    opts = dict(SEG_INV, event="('handler', 'collector', data, yaml_path, terms, kw_translated_path, kw_ancestry, kw_parent, kw_parentref)", yields=NC,
                 heap_fields=dict(SEG_INV["heap_fields"], **{"CollectorTerms._expression": "str", "CollectorTerms.expression": "str", "CollectorTerms._operation": "CollectorOperators", "CollectorTerms.operation": "CollectorOperators"}),
                 # the parser attaches an operator only to a collector that directly follows another collector, and the drivers
                 # hand that segment the list its predecessor gathered (rtc/c15 raw-text stage: every accepted string)
